@@ -23,7 +23,7 @@ Init == [i |-> 0, viol |-> {},
 IsDwr(m) == m.cmd = "DW" /\ m.req
 IsDwa(m) == m.cmd = "DW" /\ ~m.req
 
-Step(M, st) ==
+StepN(M, st) ==
   LET M0  == [M EXCEPT !.i = @ + 1]
       now == st.snap.t
       feed == IsFeed(st)
@@ -46,7 +46,7 @@ Step(M, st) ==
          : c \in CIds}
       \* ---- DWRs that should have been sent
       vMissing == {"dwr_not_sent_after_idle_timeout" : c \in {x \in CIds :
-                     inSvc(x) /\ ~M0.wait[x] /\ ~closed(x) /\ dwrs(x) = 0 /\ ~(feed /\ x = c0) /\
+                     inSvc(x) /\ ~M0.wait[x] /\ ~closed(x) /\ dwrs(x) = 0 /\ ~((feed \/ IsRx(st)) /\ x = st.act.c) /\
                      CstOf(st.snap, x) \in READY /\ now >= M0.lastRx[x] + idle(x) + MCfg.node.wakeup + 1}}
       \* ---- DWA handling
       vDwa == IF feed /\ inSvc(c0) /\ M0.wait[c0] /\ fedDwa /\ ~closed(c0) /\ CstOf(st.snap, c0) = "WAITDWA" /\ dwrs(c0) = 0
@@ -74,8 +74,8 @@ Step(M, st) ==
                  THEN ms[CHOOSE j \in 1..Len(ms) : ms[j].cmd = "CE" /\ ms[j].req /\ \A k \in 1..(j - 1) : ~(ms[k].cmd = "CE" /\ ms[k].req)].oh ELSE ""
       M2 == [M1 EXCEPT
                !.cand = [c \in CIds |-> IF c = c0 /\ @[c] = "" /\ cerHost # "" THEN cerHost ELSE @[c]],
-               !.prevRx = [c \in CIds |-> IF feed /\ c = c0 /\ M0.lastRx[c] < now THEN M0.lastRx[c] ELSE @[c]],
-               !.lastRx = [c \in CIds |-> IF feed /\ c = c0 THEN now ELSE @[c]],
+               !.prevRx = [c \in CIds |-> IF (feed \/ IsRx(st)) /\ c = st.act.c /\ M0.lastRx[c] < now THEN M0.lastRx[c] ELSE @[c]],
+               !.lastRx = [c \in CIds |-> IF (feed \/ IsRx(st)) /\ c = st.act.c THEN now ELSE @[c]],
                \* a DWA received in the same second as a DWR is sent: unordered, take the node's own view
                !.wait = [c \in CIds |-> IF dwrs(c) >= 1 /\ c = c0 /\ fedDwa THEN CstOf(st.snap, c) = "WAITDWA"
                                         ELSE IF dwrs(c) >= 1 THEN TRUE ELSE IF c = c0 /\ fedDwa THEN FALSE ELSE @[c]],
@@ -88,4 +88,5 @@ Step(M, st) ==
           [] e.ev = "dial"   -> [A EXCEPT !.dir[e.c] = "out", !.peer[e.c] = e.p, !.lastRx[e.c] = now, !.prevRx[e.c] = now]
           [] OTHER -> A
   IN FoldLeft(OnOut, M3, out)
+Step(M, s0) == StepN(M, Norm(s0))
 =============================================================================
